@@ -336,10 +336,12 @@ func (run *semRunner) finish() semExec {
 			}
 		}()
 		t := time.NewTimer(2 * time.Second)
+	drain:
 		for range run.pending {
 			select {
 			case <-run.results:
 			case <-t.C:
+				break drain // (a fired timer never fires again: do not wait for the others)
 			}
 		}
 		t.Stop()
